@@ -13,6 +13,7 @@ import (
 	"os"
 	"path/filepath"
 	"reflect"
+	"regexp"
 	"regexp/syntax"
 	"sort"
 	"strings"
@@ -426,7 +427,7 @@ func (e *Exec) Run(op Op) {
 			return
 		}
 	}
-	if (e.db == nil && op.Op != "open" && op.Op != "reopen") || e.aborted {
+	if (e.db == nil && op.Op != "open" && op.Op != "reopen" && op.Op != "simg") || e.aborted {
 		return
 	}
 	e.curCall = nil
@@ -767,6 +768,9 @@ func (e *Exec) Run(op Op) {
 
 	case "tags":
 		e.emitTags()
+
+	case "simg":
+		e.emit("simg", e.schemaImage())
 
 	case "rmschema":
 		os.Remove(filepath.Join(e.collDir(), sod.SchemaFilename))
@@ -1257,4 +1261,23 @@ func (e *Exec) emitTags() {
 		}
 		e.emit(fmt.Sprintf("tags %s %s", hx(k), hx(raw[k])), res)
 	}
+}
+
+var uuidInJSON = regexp.MustCompile(`"([0-9a-fA-F]{8}-[0-9a-fA-F]{4}-[0-9a-fA-F]{4}-[0-9a-fA-F]{4}-[0-9a-fA-F]{12})"`)
+
+// schemaImage: the bytes of schema.json as they are on disk, in hex, for the model's own JSON
+// reader; the only edit is that every uuid string is replaced by the handle the trace uses for it.
+func (e *Exec) schemaImage() string {
+	d := e.collDir()
+	if d == "" {
+		return "none"
+	}
+	data, err := os.ReadFile(filepath.Join(d, sod.SchemaFilename))
+	if err != nil {
+		return "none"
+	}
+	data = uuidInJSON.ReplaceAllFunc(data, func(m []byte) []byte {
+		return []byte(fmt.Sprintf(`"h%d"`, e.handle(string(m[1:len(m)-1]))))
+	})
+	return hex.EncodeToString(data)
 }
